@@ -110,6 +110,9 @@ func genC15Req(rng *rand.Rand, i int) c15Req {
 	}
 	if r.method != "GET" && r.method != "DELETE" || rng.Intn(4) == 0 {
 		n := []int{0, 1, 5, 16, 100, 1000, 4097}[rng.Intn(7)]
+		if rng.Intn(25) == 0 { // around the limits a server might put on discarding an unread body
+			n = []int{65536, 262144, 262145, 300000}[rng.Intn(4)]
+		}
 		r.body = make([]byte, n)
 		for j := range r.body {
 			r.body[j] = "GETPOST /HTTP1.\r\nabcxyz:0159"[rng.Intn(27)] // bodies that look like requests
